@@ -1054,14 +1054,15 @@ impl AllocCfg {
             None => Allocator::new(),
             Some(l) => Allocator::new_limited(l.min(u32::MAX as u64) as usize),
         };
+        // junk first: the cap distances are computed from a trajectory that already contains it
+        for i in 0..self.junk_atoms {
+            a.new_atom(&[0xEE, 0x10, (i >> 16) as u8, (i >> 8) as u8, i as u8, 0x01]).ok()?;
+        }
         if self.ghost_atoms > 0 {
             a.add_ghost_atom(self.ghost_atoms as usize).ok()?;
         }
         if self.ghost_pairs > 0 {
             a.add_ghost_pair(self.ghost_pairs as usize).ok()?;
-        }
-        for i in 0..self.junk_atoms {
-            a.new_atom(&[0xEE, 0x10, (i >> 16) as u8, (i >> 8) as u8, i as u8, 0x01]).ok()?;
         }
         Some(a)
     }
